@@ -265,8 +265,14 @@ func VerifC04_R_restore_faults() {
 	t := model.Target{Label: label.TL("p", "t"), ChangeHash: "h"}
 	out := model.NewOutput("dir", "dist")
 	root := t.GetAbsOutputPath(out)
+	// the build may be cancelled (Ctrl-C) at any moment of the restore (explored on the flat tree with one fault)
+	withCancel := flag("cancelled_during_restore")
+	treeChoice := 0
+	if !withCancel || sym.Tier() == "thorough" {
+		treeChoice = sym.Choice("tree", 3)
+	}
 	var es []entry
-	switch sym.Choice("tree", 3) {
+	switch treeChoice {
 	case 0: // flat directory
 		es = []entry{{path: "a", content: "1"}, {path: "b", content: "2"}, {path: "c", content: "3"}}
 	case 1: // one sub-directory
@@ -278,12 +284,30 @@ func VerifC04_R_restore_faults() {
 	genOut, err := h.Write(ctx, t, out, nil)
 	sym.Assert(err == nil, "C04.R.setup-write")
 	must(os.RemoveAll(root))
-	nf := 1 + sym.Choice("faults_minus_1", 2)
+	nf := 1
+	if !withCancel {
+		nf = 1 + sym.Choice("faults_minus_1", 2)
+	}
+	cancelled := false
+	if withCancel {
+		cctx, cancel := context.WithCancel(ctx)
+		ctx = cctx
+		go func() {
+			sym.ExternalEvent("cancel")
+			cancelled = true
+			cancel()
+		}()
+	}
 	sym.Faults(nf, filepath.Join(config.Global.GetWorkspaceCacheDirectory(), "cas"), "open,read")
 	lerr := h.Load(ctx, t, genOut, nil)
+	sym.Quiesce() // downloads still running after Load returned must end quietly too (no panic, no deadlock)
 	injected := sym.FaultsInjected()
 	sym.Faults(0, "", "")
 	sym.Reach("C04.R.load-returned")
+	if cancelled {
+		sym.Reach("C04.R.cancelled-during-restore")
+		return
+	}
 	if injected == 0 {
 		sym.Assert(lerr == nil, "C04.R.no-fault-no-error")
 		auditTree(root, es, "C04.R")
